@@ -28,6 +28,8 @@ def c01(run):
     srcs = fam(run, core=3 if run.tier == "quick" else 6, rnd=40)
     srcs += rulesets.proto_family(12 if run.tier == "quick" else 30) + [rulesets.proto_ruleset(random.Random(run.seed * 7919 + i), "rnd-proto-%d" % i) for i in range(6 if run.tier == "quick" else 20)]
     cases = units.product_unit(run, fd, srcs, [{"tbl": ""}], tag="product", san=True)
+    # operator contexts, enumerated (tables only: each rule set is decided for all inputs by the product check)
+    units.product_unit(run, fd, rulesets.context_family(run.tier != "quick"), [{"tbl": ""}], tag="contexts")
     units.trace_unit(run, cases, rng, per_case=8 if run.tier == "quick" else 16, scripts=False, tag="tokens", full_cover=600 if run.tier == "quick" else 1500)
     mc.result()
     run.assumptions += ["rule sets are sampled (each one is decided for all inputs by the product check)",
@@ -79,6 +81,9 @@ def c02(run):
             flav.append({"flavour": fl, "array": arr, "yymore": True, "reject": True})
     for t in ("-Cf", "-CF", "-Cfe", "-Ca", "-C"):
         flav.append({"tbl": t, "yymore": True})
+    # yytext kind x table representation (full tables find out that they must back up only after the text was copied)
+    flav += [{"tbl": "-Cf", "yymore": True, "array": True}, {"tbl": "-CF", "yymore": True, "array": True, "flavour": "r"},
+             {"flavour": "c99", "tbl": "-Cf", "yymore": True, "array": True}]
     # the c99 back end (its own skeleton): same specification, same traces
     flav += [{"flavour": "c99", "yymore": True, "reject": True}, {"flavour": "c99", "yymore": True, "array": True},
              {"flavour": "c99", "array": True, "reject": True}, {"flavour": "c99", "tbl": "-CF", "userread": False},
@@ -255,7 +260,7 @@ def c05(run):
     rng = random.Random(run.seed)
     q = run.tier == "quick"
     mc = units.model_async(run, invariants=(), properties=('ScOnly', 'StackLIFO'))
-    srcs = fam(run, profiles=("sc", "sc3", "anch", "mix"), core=6 if q else 10, rnd=60)
+    srcs = fam(run, profiles=("sc", "sc3", "anch", "mix"), core=6 if q else 10, rnd=60) + rulesets.manysc_family()
     # activation: all inputs, all (condition, bol) start states, rendered as prefixes and as scopes
     cfgs = [{"tbl": "", "stack": True}, {"tbl": "", "scopes": True}, {"tbl": "-Cf"}, {"tbl": "", "reject": True}, {"flavour": "c99", "stack": True}]
     cases = units.product_unit(run, fd, srcs, cfgs, tag="product", san=True)
@@ -298,6 +303,8 @@ def c08(run):
         for fl in ("nr", "r"):
             cfgs.append({"flavour": fl, "array": arr, "yymore": True})
     cfgs.append({"tbl": "-Cf", "yymore": True})
+    cfgs += [{"tbl": "-Cf", "yymore": True, "array": True}, {"tbl": "-CF", "yymore": True, "array": True, "flavour": "r"},
+             {"flavour": "c99", "tbl": "-Cfe", "yymore": True, "array": True}]
     cfgs += [{"flavour": "c99", "yymore": True}, {"flavour": "c99", "yymore": True, "array": True}, {"flavour": "cxx", "yymore": True},
              {"flavour": "cxx", "yymore": True, "userread": False}]
     cases = units.product_unit(run, fd, srcs, cfgs, tag="product", san=True)
@@ -533,7 +540,10 @@ def c14(run):
     cfgs = [{"heap": True, "yymore": True, "userread": False}, {"heap": True, "reject": True, "userread": False, "array": True},
             {"heap": True, "flavour": "r", "userwrap": True, "userread": False}, {"heap": True, "tbl": "-Cf", "userread": False},
             {"heap": True, "flavour": "c99", "userwrap": True, "userread": False, "yymore": True},
-            {"heap": True, "useread": True, "userread": False}, {"heap": True, "useread": True, "userread": False, "flavour": "c99"}]
+            {"heap": True, "useread": True, "userread": False}, {"heap": True, "useread": True, "userread": False, "flavour": "c99"},
+            # interactive buffers are filled by a getc() loop of their own: its interrupted / failing reads are fault points too
+            {"heap": True, "userread": False, "extra_opts": "always-interactive", "yymore": True},
+            {"heap": True, "userread": False, "extra_opts": "always-interactive", "flavour": "c99"}]
     cases = units.product_unit(run, fd, srcs, cfgs, tag="product", san=True)
     units.fault_unit(run, [c for c in cases if c.status == "ok"], rng, per_case=2 if q else 4, max_points=30 if q else 100)
     run.assumptions += ["one fault per run (single-fault enumeration over every allocation index / read index of each scenario, capped per scenario in the quick tier)"]
